@@ -713,6 +713,37 @@ func runC02(c *mon.Ctx) {
 			c02Judge(c, "wrong-key:"+o.name, A, A.tok, o.pk, false, nil)
 			c.Sig(base + "|wrong-key|" + o.name)
 		}
+		// (8b) the same keys in SEQUENCE on ONE decoded Evidence (seeded faults C02-u /
+		// C03-u: a verifier remembered between Verify calls): signer's key, a wrong
+		// key, the same wrong key again, the signer's key again - every answer must be
+		// the one a fresh Evidence gives
+		if ev, derr := psatoken.DecodeEvidenceFromCOSE(A.tok); derr == nil {
+			step := func(name string, pk crypto.PublicKey, wantOK bool, pos string) bool {
+				var verr error
+				if pn, _, _ := mon.Guard(func() { verr = ev.Verify(pk) }); pn {
+					c.Count("key-sequence:panic-below-library")
+					return true
+				}
+				c.Eval()
+				c.Count("key-sequence-verifies")
+				if (verr == nil) != wantOK {
+					k := "C02/key-sequence/wrong-key-verified/" + pos
+					what := fmt.Sprintf("one decoded Evidence, Verify called with several keys in turn: Verify(%s) at position %q returned nil", name, pos)
+					if wantOK {
+						k = "C02/key-sequence/signers-key-refused/" + pos
+						what = fmt.Sprintf("one decoded Evidence, Verify called with several keys in turn: the signer's key is refused (%v) %s", verr, pos)
+					}
+					c.Violation(k, what, map[string]any{"alg": alg, "key": name, "token_hex": mon.Hex(A.tok)})
+					return false
+				}
+				return true
+			}
+			for _, o := range others {
+				if !(step("signer", k.Pub, true, "before") && step(o.name, o.pk, false, "first-try") && step(o.name, o.pk, false, "retry") && step("signer", k.Pub, true, "after-wrong-key")) {
+					break
+				}
+			}
+		}
 		// malformed key OBJECTS of the right Go type: whatever happens (error, or a
 		// panic inside the standard library, which is counted but is not this
 		// property's business), Verify must not return nil
